@@ -1,6 +1,7 @@
 import CkbVerif.Model.Since
 import CkbVerif.Model.Tx
 import CkbVerif.Lemmas.Since
+import CkbVerif.Lemmas.SinceSpec
 import CkbVerif.Lemmas.Tx
 
 /-!
@@ -25,21 +26,6 @@ namespace CkbVerif.C04
 open CkbVerif.Since CkbVerif.Tx CkbVerif.Gen.Tx
 
 /-! ## Since -/
-
-/-- the RFC-17 bit fields of a since value -/
-structure Fields where
-  relative : Bool
-  metric : Nat
-  reserved : Nat
-  value : Nat
-  deriving Repr, DecidableEq
-
-def decode (s : Nat) : Fields :=
-  ⟨decide (s / 2 ^ 63 % 2 = 1), s / 2 ^ 61 % 4, s / 2 ^ 56 % 32, s % 2 ^ 56⟩
-
-/-- exact order and sum of fractions given as (numerator, denominator) with positive denominators -/
-def fracLe (a b : Nat × Nat) : Prop := a.1 * b.2 ≤ b.1 * a.2
-def fracAdd (a b : Nat × Nat) : Nat × Nat := (a.1 * b.2 + b.1 * a.2, a.2 * b.2)
 
 /-- the model's `Rat.lt` (the code's gcd-reduced cross multiplication) is the strict order of the
 exact fractions the operands represent -/
@@ -68,16 +54,6 @@ theorem since_flags_iff (cfg : Cfg) (db : HeaderDb) (env : Env) (i s : Nat) (inf
 
 example : checkSince ⟨2, 0, 3, 0⟩ [] ⟨.committed, 5, 0, 1, 0⟩ 0 0x6000000000000001 none = .invalidSince 0 := by
   decide
-
-/-- the base of a relative lock / 0 for an absolute one -/
-def baseNumber (f : Fields) (info : Option TxInfo) : Nat :=
-  if f.relative then (info.map (·.blockNumber)).getD 0 else 0
-
-private theorem abs_of_decode {s : Nat} : (decode s).relative = false ↔ isAbsolute s = true := by
-  rw [isAbsolute_iff]
-  unfold decode
-  simp only [decide_eq_false_iff_not]
-  omega
 
 /-- **block-number metric.** For every since value with valid flags and metric 0: accepted iff the
 commit block number (per `TxVerifyEnv`) is at least base + value, where base is the block number of
@@ -121,18 +97,6 @@ theorem since_block_number_ok_iff (cfg : Cfg) (db : HeaderDb) (env : Env) (i s :
 example : checkSince ⟨2, 0, 3, 0⟩ [] ⟨.proposed 1, 10, 0, 1, 0⟩ 0 0x800000000000000a (some ⟨1, 0, 0, 1⟩) = .ok ∧
     checkSince ⟨2, 0, 3, 0⟩ [] ⟨.proposed 1, 10, 0, 1, 0⟩ 0 0x800000000000000b (some ⟨1, 0, 0, 1⟩) = .immature 0 := by
   decide
-
-/-- the base epoch of a relative lock as an exact fraction / 0 for an absolute one -/
-def baseEpoch (f : Fields) (info : Option TxInfo) : Nat × Nat :=
-  if f.relative then (match info with | some x => epFrac x.blockEpoch | none => (0, 1)) else (0, 1)
-
-private theorem rel_of_decode {s : Nat} (h : ¬ isAbsolute s = true) : (decode s).relative = true := by
-  rcases hr : (decode s).relative with _ | _
-  · exact absurd (abs_of_decode.1 hr) h
-  · rfl
-
-private theorem flagsValid_of {s : Nat} (hfl : (decode s).reserved = 0) (hm : (decode s).metric ≠ 3) :
-    flagsValid s = true := (flagsValid_iff s).2 ⟨hfl, hm⟩
 
 /-- **epoch metric.** For every since value with valid flags and metric 1: accepted iff the 56-bit
 value is a well-formed increment (index < length, or both 0) and, as exact fractions,
@@ -195,11 +159,6 @@ example : checkSince ⟨2, 0, 3, 0⟩ [] ⟨.committed, 9, epPack 3 1 4, 1, 0⟩
   decide
 
 /-! ### timestamp metric -/
-
-private theorem sat_cmp (now base v : Nat) (h : now < Since.U64 - 1) :
-    now < satAdd base (satMul v TIMESTAMP_SCALE) ↔ now < base + v * 1000 := by
-  unfold satAdd satMul TIMESTAMP_SCALE Since.U64 at *
-  split <;> split <;> omega
 
 /-- **timestamp metric, absolute.** For every since value with valid flags, metric 2 and the
 relative bit clear: accepted iff the median time of the blocks before the commit position is at
